@@ -20,6 +20,10 @@ type C36Case struct {
 	WL    CompileWL `json:"workload"`
 	Roots []string  `json:"workspace"`
 	Runs  []C36Run  `json:"runs"`
+	// Concurrent: a second client compiles the same workspace on the same
+	// executor at the same time (its runs are all warm); every report of either
+	// client must equal the reference.
+	Concurrent int `json:"concurrent_runs,omitempty"`
 	Perm  []int     `json:"perm"`  // permutation seed for the Canonicalize oracle
 	Synth []SynDiag `json:"synth"` // synthetic diagnostics for the Canonicalize oracle
 	Sched Sched     `json:"sched"`
@@ -53,6 +57,9 @@ func genC36(t *rapid.T) C36Case {
 	n := rapid.IntRange(2, 4).Draw(t, "nruns")
 	for i := 0; i < n; i++ {
 		c.Runs = append(c.Runs, C36Run{Par: rapid.IntRange(1, 4).Draw(t, "par"), Warm: i > 0 && rapid.IntRange(0, 3).Draw(t, "warm") == 0})
+	}
+	if rapid.IntRange(0, 3).Draw(t, "concurrent") == 0 {
+		c.Concurrent = rapid.IntRange(1, 2).Draw(t, "nconcurrent")
 	}
 	for i := 0; i < 12; i++ {
 		c.Perm = append(c.Perm, rapid.IntRange(0, 1000).Draw(t, "perm"))
@@ -167,26 +174,35 @@ func execC36(t *testing.T, c C36Case) *Verdict {
 		return viol("C36/run-failed", "unsimulated Run failed: %v %v", ref.err, ref.panicked)
 	}
 	var v *Verdict
+	judge := func(who string, i int, r C36Run, got expOutcome) bool {
+		if v != nil {
+			return false
+		}
+		switch {
+		case got.err != nil || got.panicked != nil:
+			v = viol("C36/run-failed", "%s run %d failed: %v %v", who, i, got.err, got.panicked)
+		case !sameMultiset(got.diags, ref.diags):
+			v = viol("C36/diagnostics-differ", "%s run %d (par %d, warm %v) reports different diagnostics than the unsimulated run:\n%s\nvs\n%s", who, i, r.Par, r.Warm, got.rendered, ref.rendered)
+		case got.rendered != ref.rendered:
+			v = viol("C36/diagnostics-order-differs", "%s run %d (par %d, warm %v) reports the same diagnostics in a different order:\n%s\nvs\n%s", who, i, r.Par, r.Warm, got.rendered, ref.rendered)
+		}
+		if v != nil {
+			if textHasImportCycle(c.WL.userSources(), c.Roots) {
+				v.Class += "-with-import-cycle"
+			}
+			return false
+		}
+		return true
+	}
+	var env *expEnv // the executor of the current run of c0, shared with c1
 	client := sim.Client{Name: "c0", Fn: func() {
-		var env *expEnv
 		for i, r := range c.Runs {
 			sim.Yield("h.op", "")
 			if env == nil || !r.Warm {
 				env = newExpEnv(&simOpener{files: c.WL.userSources(), transient: map[string]bool{}}, c.Roots, r.Par)
 			}
 			got := env.compile(context.Background())
-			switch {
-			case got.err != nil || got.panicked != nil:
-				v = viol("C36/run-failed", "run %d failed: %v %v", i, got.err, got.panicked)
-			case !sameMultiset(got.diags, ref.diags):
-				v = viol("C36/diagnostics-differ", "run %d (par %d, warm %v) reports different diagnostics than the unsimulated run:\n%s\nvs\n%s", i, r.Par, r.Warm, got.rendered, ref.rendered)
-			case got.rendered != ref.rendered:
-				v = viol("C36/diagnostics-order-differs", "run %d (par %d, warm %v) reports the same diagnostics in a different order:\n%s\nvs\n%s", i, r.Par, r.Warm, got.rendered, ref.rendered)
-			}
-			if v != nil {
-				if textHasImportCycle(c.WL.userSources(), c.Roots) {
-					v.Class += "-with-import-cycle"
-				}
+			if !judge("client c0", i, r, got) {
 				return
 			}
 			// (3) Canonicalize on the real diagnostics, permuted.
@@ -206,9 +222,26 @@ func execC36(t *testing.T, c C36Case) *Verdict {
 			}
 		}
 	}}
+	clients := []sim.Client{client}
+	if c.Concurrent > 0 {
+		clients = append(clients, sim.Client{Name: "c1", Fn: func() {
+			for i := 0; i < c.Concurrent; i++ {
+				sim.Yield("h.op", "")
+				e := env
+				if e == nil {
+					continue // c0 has not created an executor yet
+				}
+				sim.S().Probe("concurrent-run-on-shared-executor")
+				got := e.compile(context.Background())
+				if !judge("client c1 (concurrent, same executor)", i, C36Run{Warm: true}, got) {
+					return
+				}
+			}
+		}})
+	}
 	cfg := incrBubbleCfg(&c.Sched, &gworld{}, 100000)
 	cfg.Guards = nil
-	out := sim.RunBubble(t, cfg, []sim.Client{client}, nil)
+	out := sim.RunBubble(t, cfg, clients, nil)
 	st.Case(fmt.Sprintf("%v|%v|%v|%v|%d", c.WL.Files, c.Roots, c.Runs, c.Synth, out.TraceHash), ref.ndiag > 1)
 	st.ProbeN("diagnostics-in-reference", int64(ref.ndiag))
 	if hv := hangVerdict("C36", out); hv != nil {
